@@ -273,6 +273,12 @@ func init() {
 			w.assert(s, term(args[1]), strArg(args[2]), strArg(args[0]))
 			return TupleV{}
 		},
+		zz + "And":     func(w *W, s *State, args []Value) Value { return And(term(args[0]), term(args[1])) },
+		zz + "Or":      func(w *W, s *State, args []Value) Value { return Or(term(args[0]), term(args[1])) },
+		zz + "Implies": func(w *W, s *State, args []Value) Value { return Or(Not(term(args[0])), term(args[1])) },
+		zz + "IteInt":  func(w *W, s *State, args []Value) Value { return Ite(term(args[0]), term(args[1]), term(args[2])) },
+		zz + "IteInt64": func(w *W, s *State, args []Value) Value { return Ite(term(args[0]), term(args[1]), term(args[2])) },
+		zz + "IteUint": func(w *W, s *State, args []Value) Value { return Ite(term(args[0]), term(args[1]), term(args[2])) },
 		zz + "MustCover": func(w *W, s *State, args []Value) Value {
 			sl := args[0].(SliceV)
 			if !sl.Nil {
